@@ -174,11 +174,15 @@ unsafe impl<T, N: ArrayLength> GenericSequence<T> for Box<GenericArray<T, N>> {
             };
 
             // Box::new_uninit() is nightly-only
-            let ptr: *mut GenericArray<MaybeUninit<T>, N> = if size_of::<T>() == 0 {
-                ptr::NonNull::dangling().as_ptr()
-            } else {
-                alloc::alloc::alloc(Layout::new::<GenericArray<MaybeUninit<T>, N>>()).cast()
-            };
+            //
+            // The whole array is zero-sized if either `T` is zero-sized or `N` is zero,
+            // and the global allocator must never be asked for a zero-size block.
+            let ptr: *mut GenericArray<MaybeUninit<T>, N> =
+                if size_of::<GenericArray<MaybeUninit<T>, N>>() == 0 {
+                    ptr::NonNull::dangling().as_ptr()
+                } else {
+                    alloc::alloc::alloc(Layout::new::<GenericArray<MaybeUninit<T>, N>>()).cast()
+                };
 
             let mut builder = IntrusiveArrayBuilder::new(&mut *ptr);
 
